@@ -1733,3 +1733,27 @@ Proof.
     split; [rewrite Hlx; apply dk_read_write_same|].
     rewrite Hlx. split; lia.
 Qed.
+
+(* ====================================================================== *)
+(* element count (bnelems) vs buftype count (bufcount) in the blocking put   *)
+(* ====================================================================== *)
+Theorem put_buffer_restored_bnelems : forall api nconv nswap contig himap h nbytes bt buf xsz,
+  put_blocking_buffer (put_swaps_user_buf api nconv nswap contig himap h nbytes) bt buf xsz = buf.
+Proof.
+  intros. unfold put_blocking_buffer. apply put_buffer_restored.
+Qed.
+
+Definition swap_back_over_mpi_count_full : Prop :=
+  forall flag bt buf xsz, put_blocking_buffer_mpi_count flag bt buf xsz = buf.
+(* witness: 2 units of MPI_Type_contiguous(2, MPI_SHORT): swapping back over bufcount = 2 of the 4 elements leaves the
+   second half of the buffer byte-swapped *)
+Theorem swap_back_over_mpi_count_refuted : ~ swap_back_over_mpi_count_full.
+Proof.
+  intro H. specialize (H true (mkbt 2 2 true) [1; 2; 3; 4; 5; 6; 7; 8] 2).
+  vm_compute in H. discriminate H.
+Qed.
+Example put_buffer_restored_bnelems_ex :
+  put_blocking_buffer true (mkbt 2 2 true) [1; 2; 3; 4; 5; 6; 7; 8] 2 = [1; 2; 3; 4; 5; 6; 7; 8]
+  /\ user_buf_in_flight true [1; 2; 3; 4; 5; 6; 7; 8] (bt_bnelems (mkbt 2 2 true)) 2 = [2; 1; 4; 3; 6; 5; 8; 7].
+Proof. vm_compute. split; reflexivity. Qed.
+Print Assumptions put_buffer_restored_bnelems.
